@@ -252,3 +252,11 @@ chk("C09", TV,
     "emitted bytes of generated programs (hash variables copied in/out; Dict update, lookup with members copied out, in-place "
     "modification, Else branch) executed symbolically over symbolic map contents and slot tables",
     BASE_NOTE, "symbolic execution of the emitted eBPF bytes (z3 bit-vectors) and of the Python map API against one byte-level reference", "A:8/C09")
+
+chk("C04", TV,
+    "seeded random programs (main and subprogram locals of all sizes with several instances, array-map and hash-map variables, "
+    "Dict key/value members; 4-8 statements: copies, moves, arithmetic with temporaries, hash variable := expression, "
+    "comparisons, Dict update/lookup): the emitted bytes run symbolically over symbolic inputs; every variable copied out at "
+    "the end must hold the value last assigned to it (plain store reference); all memory accesses inside their regions",
+    BASE_NOTE + " Subprogram locals overlapping another instance's local are a recorded finding and outside the claim.",
+    "symbolic execution of the emitted eBPF bytes (z3 bit-vectors) against a plain store reference", "A:8/C04")
